@@ -21,9 +21,12 @@ def generate(tier, scen, seed, sample=None):
     packs = [0, 1, 400, 0]
     with open(raw) as f, open(scen, "w") as g:
         for i, line in enumerate(f):
-            if sample and (i * 7 + seed) % sample != 0:
-                continue
             d = json.loads(line)
+            # depth-limited fetches that may FOLLOW a tag (no refspec covers it) are all kept - a followed tag is
+            # the one ref a fetch may put on a commit it received without its table; the rest is sampled
+            risky = d.get("op") == "fetch" and d.get("depth", 0) > 0 and d.get("mode") == "none"
+            if sample and (i * 7 + seed) % sample != 0 and not risky:
+                continue
             d["maxpack"] = packs[i % len(packs)]
             d["rows"] = 300 if i % 9 == 0 else 3
             g.write(json.dumps(d) + "\n")
